@@ -53,10 +53,10 @@ namespace MPoly
 /-- insert a term into a canonical list (sorted by `Mono.lt`), combining equal monomials and dropping zeros;
     coefficients are normalised into the ring `K`. -/
 def insertTerm (K : Ring) (m : Mono) (c : Int) : MPoly → MPoly
-  | [] => let c' := norm K c; if c' = 0 then [] else [(m, c')]
+  | [] => if norm K c = 0 then [] else [(m, norm K c)]
   | (n, d) :: r =>
-    if Mono.lt m n then (let c' := norm K c; if c' = 0 then (n, d) :: r else (m, c') :: (n, d) :: r)
-    else if m = n then (let s := norm K (c + d); if s = 0 then r else (n, s) :: r)
+    if Mono.lt m n then (if norm K c = 0 then (n, d) :: r else (m, norm K c) :: (n, d) :: r)
+    else if m = n then (if norm K (c + d) = 0 then r else (n, norm K (c + d)) :: r)
     else (n, d) :: insertTerm K m c r
 
 /-- canonical form -/
